@@ -262,7 +262,8 @@ Section Frame.
       destruct (negb _); [reflexivity|].
       destruct (seto sb (hp root (c ++ q)) (Dir [])) eqn:E; [|reflexivity].
       cbn [fst]. eapply geto_seto_far; eauto. }
-    destruct (String.eqb (meth r) "COPY" || String.eqb (meth r) "MOVE") eqn:CM; [|reflexivity].
+    destruct (String.eqb (meth r) "COPY" || String.eqb (meth r) "MOVE") eqn:CM.
+    2:{ destruct (String.eqb (meth r) "PROPPATCH"); [unfold do_proppatch; destruct (pf r)|]; reflexivity. }
     unfold is_copy_move in Hd. rewrite CM in Hd.
     unfold do_copy_move.
     destruct (h_dest r) as [| |dst]; try reflexivity.
@@ -516,7 +517,8 @@ Section Local.
       (destruct (String.eqb (h_depth r) ""); [|destruct (String.eqb (h_depth r) "0"); [|destruct (String.eqb (h_depth r) "1"); [|destruct (String.eqb (h_depth r) "infinity"); [|apply agree_same]]]]);
       destruct (geto (Some n) q); apply agree_same. }
     destruct (String.eqb (meth r) "MKCOL"); [apply (mkcol_local r q Eq)|].
-    destruct (String.eqb (meth r) "COPY" || String.eqb (meth r) "MOVE") eqn:CM; [|apply agree_same].
+    destruct (String.eqb (meth r) "COPY" || String.eqb (meth r) "MOVE") eqn:CM.
+    2:{ destruct (String.eqb (meth r) "PROPPATCH"); [unfold do_proppatch; destruct (pf r)|]; apply agree_same. }
     unfold is_copy_move in Hd. rewrite CM in Hd.
     unfold do_copy_move.
     destruct (h_dest r) as [| |dst]; try apply agree_same.
